@@ -135,7 +135,9 @@ def _run(ck, tier):
                     roots, _ = receiver_roots(b, t)
                     if b is f and not any(r == ("arg", 1) for r in roots):
                         ok = False
-                extra = answer_sources(p, f, (m, ms)) if f.get("kind") != "Closure" and not p.closures_of(f.name) else []
+                extra = answer_sources(p, f, (m, ms)) if f.get("kind") != "Closure" else []
+                if p.closures_of(f.name):       # answers that pass through closures are not followed: keep only what is certain
+                    extra = [x for x in extra if x.startswith("a constant answer")]
                 if extra:
                     ck.refuted("R-C15-str", key, f.span, "%s has another source of answers besides %s: %s - the str and char-slice variants of this query can disagree" % (ms, m, "; ".join(extra[:2])))
                 else:
@@ -160,7 +162,9 @@ def _run(ck, tier):
             continue
         b, bi, t, _ = [x for x in dc if x[3] == m][0]
         roots, fields = receiver_roots(b, t)
-        extra = answer_sources(p, f, (m,)) if not p.closures_of(f.name) else []
+        extra = answer_sources(p, f, (m,))
+        if p.closures_of(f.name):
+            extra = [x for x in extra if x.startswith("a constant answer")]
         if extra:
             ck.refuted("R-C15-fst", key, f.span, "FstDictionary::%s has another source of answers besides full_dict.%s: %s - the FST back-end can answer differently from the word map it wraps" % (m, m, "; ".join(extra[:2])))
             continue
